@@ -763,6 +763,16 @@ pub struct PvCase {
 
 pub struct Possible;
 
+/// Case folding of `ignore_case`: Unicode with clap's `unicode` feature, ASCII without it (documented on
+/// `Arg::ignore_case`). The main harness enables `unicode`; `harness/plain` (default features) sets `ascii-fold`.
+fn fold(s: &str) -> String {
+    if cfg!(feature = "ascii-fold") {
+        s.to_ascii_lowercase()
+    } else {
+        s.to_lowercase()
+    }
+}
+
 fn check_pv(case: &PvCase, ctx: &mut Ctx) -> Verdict {
     let pvs: Vec<clap::builder::PossibleValue> = case
         .values
@@ -793,7 +803,7 @@ fn check_pv(case: &PvCase, ctx: &mut Ctx) -> Verdict {
     let res = cmd.try_get_matches_from(["p".to_owned(), format!("--opt={}", case.input)]);
     let spellings: Vec<&String> = case.values.iter().flat_map(|(n, a)| std::iter::once(n).chain(a.iter())).collect();
     let member = if case.ignore_case {
-        spellings.iter().any(|s| s.to_lowercase() == case.input.to_lowercase())
+        spellings.iter().any(|s| fold(s) == fold(&case.input))
     } else {
         spellings.iter().any(|s| **s == case.input)
     };
@@ -823,8 +833,8 @@ fn check_pv(case: &PvCase, ctx: &mut Ctx) -> Verdict {
             ctx.label("pv:rejected");
         }
     }
-    let case_variant = spellings.iter().any(|s| **s != case.input && s.to_lowercase() == case.input.to_lowercase());
-    let is_alias = case.values.iter().any(|(_, a)| a.iter().any(|x| x.to_lowercase() == case.input.to_lowercase()));
+    let case_variant = spellings.iter().any(|s| **s != case.input && fold(s) == fold(&case.input));
+    let is_alias = case.values.iter().any(|(_, a)| a.iter().any(|x| fold(x) == fold(&case.input)));
     if case_variant {
         ctx.label("pv:case-variant-of-a-spelling");
     }
@@ -859,7 +869,7 @@ impl Property for Possible {
     fn decode(&self, t: &mut Tape<'_>) -> PvCase {
         let mut pool: Vec<&str> = vec![
             "fast", "Fast", "FAST", "slow", "auto", "Auto", "quick", "QUICK", "a", "A", "x-y", "X-Y", "1", "\u{e9}t\u{e9}", "\u{c9}T\u{c9}", "never",
-            "Never", "fa",
+            "Never", "fa", "dry_run", "[auto]", "a@b", "x^y",
         ];
         let mut values = Vec::new();
         let n = t.range(1, 4);
@@ -882,8 +892,18 @@ impl Property for Possible {
         let ignore_case = t.bool();
         let spellings: Vec<String> = values.iter().flat_map(|(n, a)| std::iter::once(n.clone()).chain(a.iter().cloned())).collect();
         let base = t.pick(&spellings).clone();
-        let input = match t.weighted(&[3, 3, 1, 1, 1, 1]) {
+        let input = match t.weighted(&[3, 3, 1, 1, 1, 1, 2]) {
             0 => base,
+            6 => {
+                // flip bit 0x20 of one ASCII byte: a case flip for a letter, another character for anything else
+                let mut b = base.clone().into_bytes();
+                let ascii: Vec<usize> = (0..b.len()).filter(|i| b[*i] < 0x80 && b[*i] >= 0x40).collect();
+                if !ascii.is_empty() {
+                    let i = ascii[t.choose(ascii.len())];
+                    b[i] ^= 0x20;
+                }
+                String::from_utf8(b).unwrap_or(base)
+            }
             1 => {
                 // flip the case of some letters
                 base.chars()
